@@ -1,2 +1,4 @@
 //! Independent executable reference models.
+pub mod ast;
 pub mod lcg;
+pub mod prog;
